@@ -35,6 +35,8 @@ pub struct Rel {
     pub cas: u8,
     /// 0 same key+salt, 1 same key other salt, 2 other key
     pub target: u8,
+    /// the first call carries a cas of its own (nothing is stored yet, so the storing nodes accept it)
+    pub first_cas: bool,
 }
 
 #[derive(Clone, Debug)]
@@ -45,7 +47,7 @@ pub struct Case {
     pub rel: Rel,
 }
 fn case_json(c: &Case) -> Value {
-    json!({"class":"overlap","seed":c.seed.to_string(),"servers":c.servers,"phase":format!("{:?}",c.phase),"rel":{"same_item":c.rel.same_item,"seq":c.rel.seq,"cas":c.rel.cas,"target":c.rel.target}})
+    json!({"class":"overlap","seed":c.seed.to_string(),"servers":c.servers,"phase":format!("{:?}",c.phase),"rel":{"same_item":c.rel.same_item,"seq":c.rel.seq,"cas":c.rel.cas,"target":c.rel.target,"first_cas":c.rel.first_cas}})
 }
 
 fn short(r: &Option<Result<Id, PutMutableError>>) -> String {
@@ -108,7 +110,8 @@ pub fn overlap_scenario(r: &mut Report, c: &Case) {
     })));
     let a1 = x.adht.clone();
     let item1 = i1.clone();
-    let mut t1: Task<Result<Id, PutMutableError>> = Task::new(w.now(), async move { a1.put_mutable(item1, None).await });
+    let cas1 = if c.rel.first_cas { Some(s1 - 3) } else { None };
+    let mut t1: Task<Result<Id, PutMutableError>> = Task::new(w.now(), async move { a1.put_mutable(item1, cas1).await });
     let t_first = w.now();
     // place the second call
     let bound = 120 * SEC;
@@ -165,6 +168,10 @@ pub fn overlap_scenario(r: &mut Report, c: &Case) {
             fail(r, "control/interference", "puts for another salt or key affected each other");
         }
         r.count("controls");
+    } else if in_flight && !first_done_before && c.rel.same_item && c.rel.cas == 2 && c.phase == Phase::DuringStore {
+        // identical item, but with a cas that matches nothing, after the first call's requests went out: the storing
+        // nodes hold the item by now and answer 301 to the repeated write - their verdict, not a local rule
+        r.count("identical_item_with_foreign_cas_during_store_phase_not_judged");
     } else if in_flight && !first_done_before {
         let want2 = if c.rel.same_item {
             "Ok"
@@ -209,6 +216,9 @@ pub fn overlap_scenario(r: &mut Report, c: &Case) {
         };
         if s_r1 != "Ok" {
             fail(r, &format!("after-completion/first-call/got-{s_r1}"), "the first put_mutable did not succeed");
+        } else if c.rel.same_item && c.rel.cas == 2 && (s_r2 == "Ok" || s_r2 == "CasFailed") {
+            // the stored item again, with a cas that differs from the stored seq: both BEP44 rules apply, either verdict is allowed
+            r.count("same_item_with_foreign_cas_after_completion_either_way");
         } else if s_r2 != want2 {
             fail(r, &format!("after-completion/expected-{want2}/got-{s_r2}"), &format!("second put_mutable after the first completed: the storing nodes' verdict should surface as {want2}, got {s_r2}"));
         }
@@ -333,7 +343,7 @@ pub fn run(a: &Args) -> Report {
             super::guarded(&mut r, c.clone(), |r| majority_scenario(r, seed, &fates, kind));
         } else {
             let phase = PHASES.iter().find(|p| format!("{p:?}") == c["phase"].as_str().unwrap_or("")).copied().unwrap_or(Phase::SameTick);
-            let rel = Rel { same_item: c["rel"]["same_item"].as_bool().unwrap_or(false), seq: c["rel"]["seq"].as_i64().unwrap_or(0) as i8, cas: c["rel"]["cas"].as_u64().unwrap_or(0) as u8, target: c["rel"]["target"].as_u64().unwrap_or(0) as u8 };
+            let rel = Rel { same_item: c["rel"]["same_item"].as_bool().unwrap_or(false), seq: c["rel"]["seq"].as_i64().unwrap_or(0) as i8, cas: c["rel"]["cas"].as_u64().unwrap_or(0) as u8, first_cas: c["rel"]["first_cas"].as_bool().unwrap_or(false), target: c["rel"]["target"].as_u64().unwrap_or(0) as u8 };
             let case = Case { seed, servers: c["servers"].as_u64().unwrap_or(4) as usize, phase, rel };
             super::guarded(&mut r, case_json(&case), |r| overlap_scenario(r, &case));
         }
@@ -344,14 +354,22 @@ pub fn run(a: &Args) -> Report {
     let seeds = if a.quick() { 20 } else { 200 };
     for s in 0..seeds {
         for phase in PHASES {
-            let mut rels = vec![Rel { same_item: true, seq: 0, cas: 0, target: 0 }, Rel { same_item: true, seq: 0, cas: 1, target: 0 }];
+            let mut rels = vec![
+                Rel { same_item: true, seq: 0, cas: 0, target: 0, first_cas: false },
+                Rel { same_item: true, seq: 0, cas: 1, target: 0, first_cas: false },
+                Rel { same_item: true, seq: 0, cas: 2, target: 0, first_cas: false },
+                Rel { same_item: true, seq: 0, cas: 0, target: 0, first_cas: true },
+                Rel { same_item: true, seq: 0, cas: 2, target: 0, first_cas: true },
+                Rel { same_item: false, seq: 1, cas: 1, target: 0, first_cas: true },
+                Rel { same_item: false, seq: 1, cas: 0, target: 0, first_cas: true },
+            ];
             for seq in [-1i8, 0, 1] {
                 for cas in [0u8, 1, 2] {
-                    rels.push(Rel { same_item: false, seq, cas, target: 0 });
+                    rels.push(Rel { same_item: false, seq, cas, target: 0, first_cas: false });
                 }
             }
-            rels.push(Rel { same_item: false, seq: 0, cas: 0, target: 1 });
-            rels.push(Rel { same_item: false, seq: -1, cas: 2, target: 2 });
+            rels.push(Rel { same_item: false, seq: 0, cas: 0, target: 1, first_cas: false });
+            rels.push(Rel { same_item: false, seq: -1, cas: 2, target: 2, first_cas: false });
             for rel in rels {
                 cases.push(Case { seed: mix(a.seed, (s * 1000 + cases.len()) as u64), servers: 4 + s % 5, phase, rel });
             }
